@@ -64,13 +64,12 @@ theorem canonical_path_accepted (compressed : Bool) (id : Bytes) (h : id.length 
 theorem gen_sites : Gen.site_str_CompressedChunkExt_found = true ∧ Gen.CompressedChunkExtBytes = [46, 99, 97, 99, 110, 107] := by
   decide
 
-/-- **regenerated obligation**: both server commands take the authorization value from the flag or, when that is
-    empty, from `DESYNC_HTTP_AUTH` — in the command function itself, on the options the handler is built from — and
-    hand the writable flag, the write-verification flag and the authorization value to the handler's constructor -/
+/-- **regenerated obligation**: both server commands still construct their handler (`NewHTTPHandler` /
+    `NewHTTPIndexHandler`) in `runChunkServer` / `runIndexServer`.  WHAT they hand to it — the authorization value from the
+    flag or `DESYNC_HTTP_AUTH`, the writable flag, the write-verification flag, the converters — is no longer compared as
+    spelled here (a behaviour-preserving rewrite of the option handling made that red): it is extracted by meaning and
+    proved equal to the model in `Properties/C15ServerOptsGen.lean` (`gen_chunk_server_wires`, `gen_index_server_wires`). -/
 theorem gen_cmd_server_plumbing :
-    Gen.cmdChunkServerPlumbing = ["env-fallback:opt.auth=os.Getenv(\"DESYNC_HTTP_AUTH\")",
-      "handler(opt.writable,opt.skipVerifyWrite,converters,opt.auth)"] ∧
-    Gen.cmdIndexServerPlumbing = ["env-fallback:opt.auth=os.Getenv(\"DESYNC_HTTP_AUTH\")", "handler(opt.writable,opt.auth)"] ∧
     Gen.site_shape_cmdChunkServerPlumbing_found = true ∧ Gen.site_shape_cmdIndexServerPlumbing_found = true := by
   decide
 
